@@ -365,7 +365,7 @@ impl Prop for C14 {
                         s.srv.stop_kill();
                         usage_trusted = false; // the usage report is persisted only periodically
                     }
-                    s.srv.start().map_err(|e| Failure::new("restart_failed", format!("{}: server does not come back: {}", what, e)))?;
+                    s.srv.start().map_err(|e| crate::common::srv::start_failure("restart_failed", format!("{}: server does not come back: {}", what, e), &e))?;
                     if !live.is_empty() {
                         rep.nontrivial = true;
                     }
